@@ -347,6 +347,11 @@ func VerifyHashed(pubx, puby, e, r, s []byte) (bool, error) {
 		return false, err
 	}
 
+	// GetAffineX_Unsafe reports 0 for the point at infinity, which has no x coordinate
+	if result.IsInfinity() {
+		return false, errors.New("[s]G + [t]P is the point at infinity")
+	}
+
 	R := result.GetAffineX_Unsafe()
 	eInt.SetBytes(e)
 	R.Add(R, &eInt)
